@@ -121,6 +121,19 @@ CHECKS = {
         TRUSTED + "; Euler/quaternion/rotvec/matrix round trips are relations between real calls",
         "DESIGN.md 4/C11",
     ),
+    "C08": (
+        "model_checking",
+        "spec/Wedge.tla decides every Fourier bin by integer sign tests (FFT-ordered index / box length, rotated by the "
+        "orientation, against the two tilt planes with rational tangents incl. +-90 degrees; classes keep/drop/boundary); "
+        "TLC checks on EVERY shape in [1..N]^3 x 24+6 orientations x tilt pairs x axis that the zero frequency is kept, that "
+        "the mask is symmetric under k -> -k off the Nyquist bins, and the lemma that the historical index grid is wrong "
+        "exactly for odd lengths, and emits the expected mask; all real entry points (tilt models, backend helper, utility "
+        "function, alignment-model tilt given as tuple / model object / legacy keyword, mask application to a spectrum, "
+        "dual-axis union, no wedge) are compared bin by bin and tested for symmetry.",
+        "TLA+ spec Wedge.tla model-checked by TLC; emitted exact masks replayed against every real entry point",
+        TRUSTED + "; bins exactly on a plane may take either value",
+        "DESIGN.md 4/C08",
+    ),
 }
 
 REASON_TODO = "check not built yet in this round (planned: see DESIGN.md section 4)"
